@@ -1,10 +1,10 @@
 INIT Init
 NEXT Next
-CONSTANTS MaxLen = 3
+CONSTANTS Lens = {1, 2, 3}
   Sizes = {64, 80}
   Pkts <- LinkPkts
   Filters <- LinkFilters
-  CutAll = TRUE
+  CutMode = "all"
   Cap = 2
   Defect = "offset-before-skip"
 INVARIANTS Refines TrackedIsTrue OffsetsTrue BatchesFull
